@@ -472,7 +472,7 @@ def main():
     obls = obligations_for(specs, prop, tier, a.only)
     if not obls:
         print("no obligations for %s tier %s" % (prop, tier)); return 3
-    wd = os.path.join(BUILD, "%s-%s" % (prop, tier))
+    wd = os.path.join(BUILD, "%s-%s-%d" % (prop, tier, os.getpid()))
     shutil.rmtree(wd, ignore_errors=True); os.makedirs(wd)
     hints_file = os.path.join(ROOT, "unwind_hints.json")
     unwind_hints = json.load(open(hints_file)) if os.path.exists(hints_file) else {}
